@@ -180,7 +180,7 @@ def norm(x):
 def run(ctx):
     r = ctx.rng
     quick = ctx.tier == "quick"
-    ctx.rule = ("timed sequences of client_subscribed / client_unsubscribed from 5 endpoints (IPv4 and IPv6), refused subscriptions (unknown eventgroup, 0 or 2 endpoints), "
+    ctx.rule = ("timed sequences of client_subscribed / client_unsubscribed from 5 endpoints (IPv4 and IPv6), refused subscriptions (unknown eventgroup, 0 or 2 endpoints; judged directly also 0, 2, 3 endpoints of mixed transport protocols and families), "
                 "value updates for 4 events, explicit notify_once for any subset (incl. an event without value), cyclic interval {none, 0.5, 0.75, 1 s}, address resolution "
                 "delay {0, 1 tick, 1 ms}, times on the cyclic instants +-1 tick and anywhere; one long run that wraps a destination's session id through _notify_single; "
                 "real SimpleService/SimpleEventgroup on the virtual-time loop vs the model (complete traces), implementation trace judged by check_C17; "
@@ -195,6 +195,7 @@ def run(ctx):
         judge(ctx, [wrap_scenario(r)], {})
         ctx.dist["session-id-wrap-run"] += 1
     two_groups(ctx, r, 60 if quick else 1500)
+    refusals(ctx, 40 if quick else 1500)
 
 
 def two_groups(ctx, r, n):
@@ -281,6 +282,86 @@ def two_groups(ctx, r, n):
             if problems:
                 ctx.violation("service with two eventgroups and common subscribers: " + problems[0], dict(steps=[list(s) for s in steps], problems=problems[:6]))
             ctx.case(("two-groups", tuple(steps)), nontrivial=bool(sent), kind="two-eventgroups")
+        finally:
+            asyncio.set_event_loop(None)
+            loop.close()
+
+
+def refusals(ctx, n):
+    """Subscriptions naming other than exactly ONE endpoint - none, two or three, of one or several transport protocols
+    (UDP + TCP, UDP + an unassigned protocol number), IPv4 and IPv6 mixed - and an unknown eventgroup: refused with
+    NakSubscription, nothing sent, nobody added to the rounds.  Judged directly on the real SimpleService."""
+    import asyncio
+    import ipaddress
+    import random
+    import someip.header as H
+    import someip.sd as S
+    import someip.service as SV
+    r = random.Random(ctx.seed * 7919 + 17)
+    protos = [H.L4Protocols.UDP, H.L4Protocols.TCP, 0x7F]
+    for k in range(n):
+        loop = asyncio.new_event_loop()
+        asyncio.set_event_loop(loop)
+        try:
+            async def gai(host, port, **kw):
+                return [(None, None, None, None, (host, port))]
+            loop.getaddrinfo = gai
+            sent = []
+
+            class T:
+                def sendto(self, data, addr=None):
+                    sent.append((bytes(data), addr))
+
+                def get_extra_info(self, key):
+                    return ("192.0.2.1", 30501)
+
+            def ep(i):
+                if r.random() < 0.3:
+                    return H.IPv6EndpointOption(address=ipaddress.IPv6Address("2001:db8::%d" % (i + 1)), l4proto=r.choice(protos), port=4000 + i)
+                return H.IPv4EndpointOption(address=ipaddress.IPv4Address("10.0.0.%d" % (i + 1)), l4proto=r.choice(protos), port=4000 + i)
+
+            async def go():
+                cls = type("VerifService3", (SV.SimpleService,), dict(service_id=0x4242, version_major=1, version_minor=0))
+                svc = cls(1)
+                svc.log.disabled = True
+                svc.transport = T()
+                eg = SV.SimpleEventgroup(svc, 5)
+                eg.log.disabled = True
+                eg.values[1] = b"x"
+                svc.register_eventgroup(eg)
+                good = H.IPv4EndpointOption(address=ipaddress.IPv4Address("10.0.0.9"), l4proto=H.L4Protocols.UDP, port=4009)
+                svc.client_subscribed(S.EventgroupSubscription(service_id=0x4242, instance_id=1, major_version=1, id=5, counter=0, ttl=3, endpoints=frozenset([good])), ("10.0.0.9", 30490))
+                await asyncio.sleep(0)
+                await asyncio.sleep(0)
+                base = len(sent)
+                kind = r.choice(["none", "two", "two", "two", "three", "unknown-group"])
+                eps = {"none": [], "two": [ep(0), ep(1)], "three": [ep(0), ep(1), ep(2)], "unknown-group": [ep(0)]}[kind]
+                if kind == "two" and r.random() < 0.5:
+                    eps = [H.IPv4EndpointOption(address=ipaddress.IPv4Address("10.0.0.1"), l4proto=H.L4Protocols.UDP, port=4000),
+                           H.IPv4EndpointOption(address=ipaddress.IPv4Address("10.0.0.1"), l4proto=r.choice([H.L4Protocols.TCP, 0x7F]), port=r.choice([4000, 4001]))]
+                if len(set(eps)) != len(eps):
+                    return None
+                sub = S.EventgroupSubscription(service_id=0x4242, instance_id=1, major_version=1, id=6 if kind == "unknown-group" else 5, counter=0, ttl=3, endpoints=frozenset(eps))
+                refused = False
+                try:
+                    svc.client_subscribed(sub, ("10.0.0.1", 30490))
+                except S.NakSubscription:
+                    refused = True
+                await asyncio.sleep(0)
+                await asyncio.sleep(0)
+                eg.notify_once([1])
+                for _ in range(4):
+                    await asyncio.sleep(0)
+                later = sorted(set(a for _, a in sent[base:]))
+                return kind, [repr(e) for e in eps], refused, later
+            res = loop.run_until_complete(go())
+            if res is None:
+                continue
+            kind, eps, refused, later = res
+            if not refused or later != [("10.0.0.9", 4009)]:
+                ctx.violation("a subscription naming other than exactly one endpoint (or an unknown eventgroup) was not refused, or changed who is notified",
+                              dict(kind=kind, endpoints=eps, refused=refused, notified_afterwards=[list(a) for a in later]))
+            ctx.case(("refusal", k, kind, tuple(eps)), kind="refusal-" + kind)
         finally:
             asyncio.set_event_loop(None)
             loop.close()
